@@ -10,3 +10,7 @@ Proof. apply check_sound. exact iana_check_true. Qed.
 
 Lemma domain_size : (190 <= Z.of_nat (List.length IanaGen.consts))%Z.
 Proof. vm_compute. discriminate. Qed.
+
+(* the package compiled under every build tag its own sources mention has the same constants *)
+Lemma no_tag_variants : IanaGen.tag_variants = nil.
+Proof. reflexivity. Qed.
